@@ -74,3 +74,25 @@ Definition check_recalc (c : list event * list event * expr * option (umap * boo
   | Some (mu, mw), Some (u, w) => umap_eqb mu u && Bool.eqb mw w
   | _, _ => false
   end.
+
+(** a session: define / clear calls interleaved with uses; every use builds a tree under the
+    definitions in force at that moment ([d_run] of the events so far) and is observed *)
+Inductive sstep :=
+| SEv (ev : event)
+| SUse (e : expr) (obs : option (umap * bool)) (shown : option umap).
+
+Fixpoint check_session_from (defs : defmap) (steps : list sstep) : bool :=
+  match steps with
+  | [] => true
+  | SEv ev :: r => check_session_from (d_step defs ev) r
+  | SUse e obs shown :: r =>
+    (match unit_of FUEL defs e, obs with
+     | None, None => true
+     | Some (mu, mw), Some (u, w) =>
+       umap_eqb mu u && Bool.eqb mw w &&
+       match shown with None => true | Some sh => umap_eqb (display defs mu) sh end
+     | _, _ => false
+     end) && check_session_from defs r
+  end.
+
+Definition check_session (steps : list sstep) : bool := check_session_from [] steps.
